@@ -46,6 +46,9 @@ TABLE = [
  ('C06-brotli-large-window-allocation', 'fixed', 'bbbbbbb', 'BrotliDecomp::decompress requests a 1 GiB ring buffer for a 16-byte payload whose first byte announces the Large Window Brotli extension'),
  ('C04-request-never-returns', 'fixed', 'ddddddd', 'Requestor::request() never returns when the request cannot be written out: 4 clones of one requestor each send a 900 kB request with a 5 s timeout to a library replier; the calls queued behind the shared, flow-controlled stream neither get a reply nor the timeout error (the timeout only covered the wait for the reply, not the send)'),
  ('C11-topic-wedged-by-bulk-traffic', 'fixed', 'eeeeeee', 'request/reply topic wedged for good by well-formed traffic: 20 requests of 100 kB to a library replier that answers with 300 kB each; the router waits for the replier to read the next request without reading its replies, the replier (one request at a time) waits for its reply to be read before it reads on; nothing is answered and a fresh requestor gets no answer either'),
+ ('C10-bound-traffic-stalled-by-rejected-replier', 'fixed', 'fffffff', 'a peer that registers as a second replier behind a 9-byte stream window and reads nothing freezes the topic: the router returns Pending until the refusal has been written and closed, the bound replier no longer receives requests, the requestor that was being served times out'),
+ ('C10-topic-closed-to-newcomers-by-rejected-replier', 'fixed', 'fffffff', 'same stalled refusal: no further registration is taken, a fresh requestor on the topic is told Ok by the server and never served'),
+ ('C12-panic-asked-again-after-unrecoverable-error', 'fixed', 'ggggggg', 'pub/sub KeepAlive: after an unrecoverable reconnect error (a refused re-registration) the next poll of the stream panics with `async fn` resumed after completion (keep_alive/pubsub.rs:60): status stays Disconnected with a completed attempt future'),
  ('C06-oversized-allocation-bincodecodec', 'fixed', '1111111', 'BincodeCodec::decode requests 2 GiB for 126 input bytes (length prefix trusted by deserialize_from)'),
 ]
 def main():
@@ -55,7 +58,7 @@ def main():
         for l in log:
             if l.split(' ',1)[1].startswith(prefix): return l.split()[0]
         return None
-    subst = {'0000000': sha('fix: decode_message_batch'), '1111111': sha('fix: BincodeCodec::decode'), '2222222': sha('fix: Publisher::finish flushes'), '3333333': sha('fix: Subscriber yields the messages of a batch'), '4444444': sha('fix: a Replier gets a fresh retry budget'), '5555555': sha('fix: Requestor reads replies from the new stream'), '6666666': sha('fix: backoff delays saturate'), '7777777': sha('fix: TopicName::try_from no longer panics'), '8888888': sha('fix: a registration no longer holds the global topic lock'), '9999999': sha('fix: a registration whose role does not match'), 'aaaaaaa': sha('fix: a batch is framed before it can outgrow'), 'bbbbbbb': sha('fix: brotli decompression refuses large-window'), 'ccccccc': sha('fix: Subscriber::poll_next loops instead of recursing'), 'ddddddd': sha('fix: the request timeout covers writing the request'), 'eeeeeee': sha('fix: request/reply router keeps reading replies')}
+    subst = {'0000000': sha('fix: decode_message_batch'), '1111111': sha('fix: BincodeCodec::decode'), '2222222': sha('fix: Publisher::finish flushes'), '3333333': sha('fix: Subscriber yields the messages of a batch'), '4444444': sha('fix: a Replier gets a fresh retry budget'), '5555555': sha('fix: Requestor reads replies from the new stream'), '6666666': sha('fix: backoff delays saturate'), '7777777': sha('fix: TopicName::try_from no longer panics'), '8888888': sha('fix: a registration no longer holds the global topic lock'), '9999999': sha('fix: a registration whose role does not match'), 'aaaaaaa': sha('fix: a batch is framed before it can outgrow'), 'bbbbbbb': sha('fix: brotli decompression refuses large-window'), 'ccccccc': sha('fix: Subscriber::poll_next loops instead of recursing'), 'ddddddd': sha('fix: the request timeout covers writing the request'), 'eeeeeee': sha('fix: request/reply router keeps reading replies'), 'fffffff': sha('fix: a surplus replier that is slow to take its refusal'), 'ggggggg': sha('fix: a pub/sub stream that gave up on an unrecoverable error')}
     out = []
     for f in sorted(glob.glob(os.path.join(HERE,'findings','*.json'))):
         b = os.path.basename(f)[:-5]
